@@ -696,6 +696,14 @@ func (a *fnAn) lenOf(v ssa.Value, depth int) lin {
 			if (full == "bytes.Clone" || full == "slices.Clone") && len(x.Call.Args) == 1 {
 				return a.lenOf(x.Call.Args[0], depth+1)
 			}
+			// encoding/binary's AppendUintN (documented contract: appends exactly N/8 bytes)
+			if f.Pkg.Pkg.Path() == "encoding/binary" && len(x.Call.Args) == 3 {
+				if n, ok := map[string]int64{"AppendUint16": 2, "AppendUint32": 4, "AppendUint64": 8}[f.Name()]; ok {
+					if l0 := a.lenOf(x.Call.Args[1], depth+1); l0.ok {
+						return l0.add(konst(n), 1)
+					}
+				}
+			}
 		}
 		if b, ok := x.Call.Value.(*ssa.Builtin); ok && b.Name() == "append" && len(x.Call.Args) == 2 {
 			l0, l1 := a.lenOf(x.Call.Args[0], depth+1), a.lenOf(x.Call.Args[1], depth+1)
@@ -1270,6 +1278,38 @@ func (a *fnAn) computeInvariants() {
 				}
 			}
 		}
+		// accumulators (`if total > K-step { fail }; total += step`): a guard over the phi and
+		// loop-internal quantities that is a function of the *next* value of the phi becomes a
+		// candidate over the phi itself: guard = rest + s*next with rest outside the loop gives
+		// rest + s*phi
+		for _, at := range h.phis {
+			phi := h.defs[at]
+			for i, p := range h.b.Preds {
+				if !h.b.Dominates(p) {
+					continue
+				}
+				e := a.phiEdge(at, phi, i)
+				if !e.ok || e.c[at] != 1 {
+					continue
+				}
+				for _, b := range a.fn.Blocks {
+					iff, ok := b.Instrs[len(b.Instrs)-1].(*ssa.If)
+					if !ok {
+						continue
+					}
+					for _, truth := range []bool{true, false} {
+						for _, c := range a.condFacts(iff.Cond, truth) {
+							s, has := c.l.c[at]
+							if c.neq || !has || !c.l.ok {
+								continue
+							}
+							rest := c.l.add(e, -s)
+							addCand(rest.add(single(at), s))
+						}
+					}
+				}
+			}
+		}
 		// rotated loops (`for i := range n`, do-while shapes): the test sits on the back edge and is
 		// expressed over the incremented value; shifted back by the step it is a candidate for the phi
 		for _, at := range h.phis {
@@ -1422,6 +1462,11 @@ type bSite struct {
 	ok       bool
 }
 
+// narrowMode switches boundsAnalyse from memory-safety sites to length-narrowing sites: integer
+// conversions to an 8- or 16-bit unsigned type (the width of a wire length field) whose operand is
+// not a constant; the goals are 0 <= x <= max of the target type.
+var narrowMode bool
+
 func boundsAnalyse(fn *ssa.Function, fset *token.FileSet) []bSite {
 	if fn.Blocks == nil {
 		return nil
@@ -1449,11 +1494,16 @@ func boundsAnalyse(fn *ssa.Function, fset *token.FileSet) []bSite {
 				}
 				// the guards recorded for a review are the branch conditions in force (not loop
 				// invariants, which come and go with unrelated loops)
-				for _, f := range a.branchFacts(ins.Block()) {
+				guardFacts := a.branchFacts(ins.Block())
+				if narrowMode {
+					// for a narrowing the stated beliefs include what the loops establish
+					guardFacts = facts
+				}
+				for _, f := range guardFacts {
 					for at, co := range f.l.c {
 						gc, has := g.c[at]
 						// a guard helps when it bounds a shared quantity in the direction the goal needs
-						if has && (f.neq || (co > 0) == (gc > 0)) {
+						if has && ((f.neq && !narrowMode) || (!f.neq && (co > 0) == (gc > 0))) {
 							relSet[normFact(f)] = true
 							break
 						}
@@ -1484,6 +1534,27 @@ func boundsAnalyse(fn *ssa.Function, fset *token.FileSet) []bSite {
 	one := konst(1)
 	for _, b := range fn.Blocks {
 		for _, ins := range b.Instrs {
+			if narrowMode {
+				cv, ok := ins.(*ssa.Convert)
+				if !ok {
+					continue
+				}
+				sb, _, sok := isIntLike(cv.X.Type())
+				db, dsigned, dok := isIntLike(cv.Type())
+				if !sok || !dok || dsigned || db > 16 || sb <= db {
+					continue
+				}
+				if _, isK := cv.X.(*ssa.Const); isK {
+					continue
+				}
+				l := a.linOf(cv.X, 0)
+				if !l.ok {
+					continue
+				}
+				max := int64(1)<<uint(db) - 1
+				report(cv, fmt.Sprintf("narrow%d", db), []lin{l, konst(max).add(l, -1)})
+				continue
+			}
 			switch x := ins.(type) {
 			case *ssa.IndexAddr:
 				i := a.linOf(x.Index, 0)
